@@ -9,18 +9,18 @@ ORACLE_RACE = os.path.join(core.BUILD, "oracle-race")
 
 LOCK_ASSUME = [
     "sync.RWMutex is modelled as a writer-preferring reader/writer lock (a reader arriving after a writer announced itself waits; a re-lock by the holder blocks) that provides the memory ordering its documentation promises; the Go scheduler and memory model below it are not modelled",
-    "the lock-event sequences are RECORDED from the implementation through the verif hook for every operation under every operand assignment over two sets; accesses to the sets' maps come from a go/ast walk (locks inside branches or loops make the extraction fail loudly)",
+    "the lock-event sequences are RECORDED from the implementation through the verif hook for every operation under every operand assignment over two sets; accesses to the sets' maps are placed between them by an abstract interpreter over the source of utils/mapset (harness/lockrec/absint.go: inlines everything that handles a thread-safe set, keeps the source paths whose lock calls are exactly the recorded events; C17 uses the recorded lock events alone)",
     "Iter is complete when its channel is drained; the consumer calls nothing on that set meanwhile",
 ]
 
 
-def recorded_entries():
-    resp, _ = core.ask(core.ORACLE, ["locks seqs"])
+def recorded_entries(kind="seqs"):
+    resp, _ = core.ask(core.ORACLE, ["locks " + kind])
     out = {}
     if resp and not resp[0].startswith("extract-error") and resp[0] != "bad-request":
         for part in resp[0].split(";"):
             op, pat, acts = part.split(":")
-            out[(op, pat)] = acts
+            out.setdefault((op, pat), acts)
     return out, (resp[0] if resp else "")
 
 
@@ -38,7 +38,7 @@ class _C16(Spec):
     rule = ("regenerated facts: Gen/LockSeq.lean (per operation x operand assignment AB/BA/AA/A/B: recorded lock events aligned with the source's map accesses) with `ops_disciplined` re-proved by "
             "`decide`; `locks seqs`: the sequences compiled into the model vs a fresh recording by the oracle; direct evaluation on the real code: every ordered pair of the 18 operations "
             "(648 pairs incl. aliased operands) run concurrently on shared operands under the Go race detector (separate -race build of the oracle), reports attributed to utils/mapset frames.")
-    assumptions = LOCK_ASSUME + ["linearizability itself (history equivalent to a sequential one consistent with real time) is NOT proved: partial; seeded random linearizability checking named in the quantifier is not run"]
+    assumptions = LOCK_ASSUME + ["linearizability is proved on the plain reader/writer-lock machine with data (Serial.lean) for any access semantics; that its executions include those of the writer-preferring lock is argued, not proved in Lean (partial); on the real code it is checked on seeded random concurrent histories (locks linhist)"]
 
     def streams(self, tier, rng):
         return [Stream("lock-sequences", ["locks seqs"])]
@@ -116,13 +116,13 @@ class _C17(Spec):
     pid = "C17"
     lean_module = "Starcal.Props.C17"
     expected = "every operation eventually returns under every interleaving of readers and writers: no lock is re-acquired by its holder, two-set operations (aliased or swapped operands included) cannot wait on each other in a cycle while writers are queued"
-    rule = ("regenerated facts as C16; `locks seqs` model vs fresh recording; direct evaluation on the real code: `locks stress` runs every ordered pair of operations on swapped and aliased "
+    rule = ("regenerated facts: Gen/LockSkel.lean (lock events recorded from the running code through the hook, operations by reflection over the Set interface; no reading of the source); `locks skels` model vs fresh recording; direct evaluation on the real code: `locks stress` runs every ordered pair of operations on swapped and aliased "
             "operands with a writer queued on each set under a 2 s watchdog. When a recorded sequence fails the static discipline the Lean driver searches the MODEL (explicit-state, <=4 goroutines, "
             "2 sets) for a deadlock schedule and the oracle replays it on the real code with every lock acquisition gated through the verif hook; only a deadlock reproduced on the real code is a failing input.")
     assumptions = LOCK_ASSUME
 
     def streams(self, tier, rng):
-        return [Stream("lock-sequences", ["locks seqs"])]
+        return [Stream("lock-skeletons", ["locks skels"])]
 
     def extra_checks(self, tier, rng, results, workdir):
         failing, notes = [], []
@@ -135,7 +135,7 @@ class _C17(Spec):
             for item in raw[0].split("\t")[1:]:
                 if item.startswith("!PROP C17 "):
                     failing.append(("lock-stress", "locks stress", item[len("!PROP C17 "):]))
-        entries, rawseq = recorded_entries()
+        entries, rawseq = recorded_entries("skels")
         if not entries:
             notes.append("no recorded sequences: " + rawseq[:300])
         und = undisciplined(entries, "discL1") if entries else []
